@@ -545,4 +545,49 @@ example : (match fastCsvReader (render ([⟨false, [97]⟩] :: List.replicate 5 
 
 example : csvRegrowthBound exRows 2 3 = 0 := by decide +kernel
 
+/-- hypotheses of `fsm_any_buffers_eq_spec` for the call above: budgets 3 and 4, fresh buffers with 4 index rows -/
+example : Budgets 2 [0, 3, 7] ∧ Shape 2 4 [0, 3, 7] (zeros2 2 5) (List.replicate ([0, 3, 7].getLastD 0) 0) ∧
+    (∀ c, c < 2 → ∃ r, (zeros2 2 5)[c]? = some r ∧ r[0]? = some 0) := by
+  have hb : Budgets 2 [0, 3, 7] := by
+    refine ⟨rfl, rfl, ?_⟩
+    intro c hc
+    have : c = 0 ∨ c = 1 := by omega
+    rcases this with rfl | rfl <;> decide
+  exact ⟨hb, shape_zeros hb.len hb.zero (fun c hc => Nat.le_of_lt (hb.pos c hc)), fun c hc => zeros_first c hc⟩
+
+/-- the public path with a regrowth: six columns, `chunk_row_size = 3` (window 36 bytes, budget 30 bytes per column), one record
+    whose first cell has 30 bytes and fills the window exactly: the second kernel call ends with `is_column_vals_full`, the
+    third one (budget 60) imports the record; `1 + 2 + csvRegrowthBound = 4` calls suffice -/
+def exHeader6 : List Cell := [⟨false, [97]⟩, ⟨false, [98]⟩, ⟨false, [99]⟩, ⟨false, [100]⟩, ⟨false, [101]⟩, ⟨false, [102]⟩]
+def exRows6 : List (List Cell) :=
+  [[⟨false, List.replicate 30 120⟩, ⟨false, []⟩, ⟨false, []⟩, ⟨false, []⟩, ⟨false, []⟩, ⟨false, []⟩]]
+
+example : Regime (render (exHeader6 :: exRows6)) 3 6 exHeader6 exRows6 := by
+  refine ⟨Or.inl rfl, by decide, ⟨rfl, ?_⟩, ⟨by decide, ?_⟩, by decide, ?_⟩
+  · intro c hc
+    simp only [exHeader6, List.mem_cons, List.not_mem_nil, or_false] at hc
+    rcases hc with h | h | h | h | h | h <;> subst h <;> simp [Cell.WF] <;> decide
+  · intro r hr
+    simp only [exRows6, List.mem_cons, List.not_mem_nil, or_false] at hr
+    subst hr
+    refine ⟨rfl, ?_⟩
+    intro c hc
+    simp only [List.mem_cons, List.not_mem_nil, or_false] at hc
+    rcases hc with h | h | h | h | h | h <;> subst h <;> simp [Cell.WF] <;> decide
+  · intro l hl
+    simp only [exHeader6, exRows6, List.mem_cons, List.not_mem_nil, or_false] at hl
+    rcases hl with h | h <;> subst h <;> decide
+
+example : csvRegrowthBound exRows6 6 3 = 1 := by decide +kernel
+
+example : (match readCsv (render (exHeader6 :: exRows6)) ["a", "b", "c", "d", "e", "f"] [] (some ["a"]) none 3 4 with
+           | .ok o => decide (o = ⟨1, [⟨"a", fieldOf [List.replicate 30 120]⟩]⟩)
+           | .error _ => false) = true := by
+  decide +kernel
+
+example : (match readFile (render (exHeader6 :: exRows6)) 3 6 [0, 30, 60, 90, 120, 150, 180] [0] [{ kind := .indexed }] 4 with
+           | .ok o => decide (o.rows = 1 ∧ o.calls = [0, 0, 1])
+           | .error _ => false) = true := by
+  decide +kernel
+
 end Exetera.Props.C05
